@@ -174,27 +174,63 @@ Definition mem (i : nat) (l : list nat) : bool := existsb (Nat.eqb i) l.
 Fixpoint exists_lazy {A} (f : A -> bool) (l : list A) : bool :=
   match l with [] => false | x :: t => if f x then true else exists_lazy f t end.
 
-(* the property clauses, evaluated on the OBSERVED result [obs] of a call with distance d; cf = candidate flags *)
+(* The property clauses, evaluated on the OBSERVED result [obs] of a call with distance d.  rows = (position, candidate
+   flag by the definition, value) of every sample.  Positions are also carried as binary numbers and the result is walked
+   in step with the rows, so that the evaluation is O(len * (len + d)) cheap steps even for thousands of samples
+   (unary nat comparisons cost their value). *)
+Definition prow := (nat * N * (bool * Qc))%type.
+Definition pr_pos (r : prow) : N := snd (fst r).
+Definition pr_cand (r : prow) : bool := fst (snd r).
+Definition pr_val (r : prow) : Qc := snd (snd r).
+
+(* every returned index (ascending) is a position flagged as candidate *)
+Fixpoint all_candidates (rows : list prow) (obs : list N) : bool :=
+  match obs with
+  | [] => true
+  | o :: os =>
+    (fix walk (rows : list prow) : bool :=
+       match rows with
+       | [] => false
+       | r :: rs => if N.eqb (pr_pos r) o then (if pr_cand r then all_candidates rs os else false) else walk rs
+       end) rows
+  end.
+
+(* the candidates that are not returned *)
+Fixpoint dropped (rows : list prow) (obs : list N) : list prow :=
+  match rows with
+  | [] => []
+  | r :: rs =>
+    match obs with
+    | o :: os => if N.eqb (pr_pos r) o then dropped rs os
+                 else if pr_cand r then r :: dropped rs obs else dropped rs obs
+    | [] => if pr_cand r then r :: dropped rs obs else dropped rs obs
+    end
+  end.
+
+Definition ndist (a b : N) : N := if N.leb a b then (b - a)%N else (a - b)%N.
+
 Definition pk_clauses (data : list Qc) (cf : list bool) (d : nat) (obs : list nat) : bool :=
   let n := length data in
-  let isc := fun i => nth i cf false in
-  (* only candidates *)
-  forallb isc obs
+  let idx := seq 0 n in
+  let rows : list prow := combine (combine idx (map N.of_nat idx)) (combine cf data) in
+  let obsN := map N.of_nat obs in
+  let dN := N.of_nat d in
   (* ascending, pairwise at least d apart *)
-  && sorted_sep d obs
-  (* every dropped candidate is dominated by another candidate closer than d.  Only the positions i-d+1 .. i+d-1 can
-     qualify, so only that slice of the rows (index, candidate flag, value) is searched (lazily): O(len + d) per candidate *)
-  && (let rows := combine (seq 0 n) (combine cf data) in
-      forallb (fun i => if isc i then
-                          if mem i obs then true
-                          else let vi := dat data i in
-                               exists_lazy (fun r : nat * (bool * Qc) => if fst (snd r) then
-                                                       if fst r =? i then false
-                                                       else if adist i (fst r) <? d then qle_b vi (snd (snd r)) else false
-                                                     else false)
-                                           (firstn (2 * d - 1) (skipn (i + 1 - d) rows))
-                        else true)
-              (seq 0 n)).
+  if sorted_sep d obs then
+    (* only candidates *)
+    if all_candidates rows obsN then
+      (* every dropped candidate is dominated by ANOTHER candidate closer than d with a value at least as large; only the
+         positions i-d+1 .. i+d-1 can qualify, so only that slice of the rows is searched *)
+      forallb (fun r : prow =>
+                 let i := fst (fst r) in
+                 exists_lazy (fun q : prow => if pr_cand q then
+                                                if N.eqb (pr_pos q) (pr_pos r) then false
+                                                else if N.ltb (ndist (pr_pos r) (pr_pos q)) dN then qle_b (pr_val r) (pr_val q) else false
+                                              else false)
+                             (firstn (2 * d - 1) (skipn (i + 1 - d) rows)))
+              (dropped rows obsN)
+    else false
+  else false.
 
 (* all the calls with one height.  PROPERTY level: only the clauses of the property, on the observed result
    (candidates only; ascending and >= d apart; every dropped candidate dominated - hence isolated maxima kept) *)
